@@ -255,9 +255,10 @@ func (s *SubscriptionService) DeleteSubscriptions(sc *uasc.SecureChannel, r ua.R
 	session := s.srv.Session(req.Header())
 
 	s.Mu.Lock()
-	defer s.Mu.Unlock()
 
 	results := make([]ua.StatusCode, len(req.SubscriptionIDs))
+	var deleted []uint32
+	seen := make(map[uint32]struct{})
 	for i := range req.SubscriptionIDs {
 
 		subid := req.SubscriptionIDs[i]
@@ -273,10 +274,22 @@ func (s *SubscriptionService) DeleteSubscriptions(sc *uasc.SecureChannel, r ua.R
 			results[i] = ua.StatusBadSessionIDInvalid
 			continue
 		}
-		// delete subscription gets the lock so we set them up to run in the background
-		// once this function releases its lock
-		go s.DeleteSubscription(subid)
+		if _, dup := seen[subid]; dup {
+			// named twice in this request
+			results[i] = ua.StatusBadSubscriptionIDInvalid
+			continue
+		}
+		// DeleteSubscription gets the lock, so the subscriptions are deleted once the
+		// lock is released below - here and not in a goroutine per id: a request can
+		// name 100000 ids, and that many goroutines queueing for the locks keep every
+		// other request that needs them waiting for seconds.
+		seen[subid] = struct{}{}
+		deleted = append(deleted, subid)
 		results[i] = ua.StatusOK
+	}
+	s.Mu.Unlock()
+	for _, subid := range deleted {
+		s.DeleteSubscription(subid)
 	}
 	return &ua.DeleteSubscriptionsResponse{
 		ResponseHeader: &ua.ResponseHeader{
